@@ -153,11 +153,19 @@ def prove(prop):
     if not os.path.exists(src):
         res["log"] = "no proof module"
         return res
-    text = open(src).read()
-    ns = re.findall(r"^namespace\s+(\S+)", text, re.M)
-    prefix = (ns[0] + ".") if ns else ""
-    names = re.findall(r"^(?:private\s+)?theorem\s+(\S+)", text, re.M)
-    res["theorems"] = [prefix + n for n in names]
+    # a property may have a second proof module Props/<id>Sem.lean (semantic theorems that sit above the lemma
+    # files which themselves use Props/<id>.lean)
+    mods, srcs = [mod], [src]
+    if os.path.exists(os.path.join(LEAN, "TshVerif", "Props", prop + "Sem.lean")):
+        mods.append(mod + "Sem")
+        srcs.append(os.path.join(LEAN, "TshVerif", "Props", prop + "Sem.lean"))
+        res["module"] = " ".join(mods)
+    for one in srcs:
+        text = open(one).read()
+        ns = re.findall(r"^namespace\s+(\S+)", text, re.M)
+        prefix = (ns[0] + ".") if ns else ""
+        names = re.findall(r"^(?:private\s+)?theorem\s+(\S+)", text, re.M)
+        res["theorems"] += [prefix + n for n in names]
     # forbidden words anywhere in the Lean sources (outside comments)
     bad = []
     for root, _, fs in os.walk(os.path.join(LEAN, "TshVerif")):
@@ -174,7 +182,7 @@ def prove(prop):
         res["broken"] = ["forbidden-construct"]
         return res
     with Lock("lake"):
-        rc, out = sh(["lake", "build", mod], cwd=LEAN)
+        rc, out = sh(["lake", "build"] + mods, cwd=LEAN)
     res["log"] = out[-6000:]
     if rc != 0:
         broken = re.findall(r"error: (\S+\.lean):(\d+):\d+", out)
@@ -183,7 +191,8 @@ def prove(prop):
     # axiom audit
     audit = os.path.join(BUILD, "Audit_%s_%d.lean" % (prop, os.getpid()))
     with open(audit, "w") as fh:
-        fh.write("import %s\n" % mod)
+        for one in mods:
+            fh.write("import %s\n" % one)
         for n in res["theorems"]:
             fh.write("#print axioms %s\n" % n)
     rc, out = sh(["lake", "env", "lean", audit], cwd=LEAN)
@@ -204,7 +213,7 @@ def prove(prop):
     # thorough tier: the toolchain's independent re-checker replays the compiled proof module through the kernel
     if os.environ.get("VERIF_TIER_ACTIVE") == "thorough" and not res["broken"]:
         with Lock("lake"):
-            rc, out = sh(["lake", "env", "leanchecker", mod], cwd=LEAN)
+            rc, out = sh(["lake", "env", "leanchecker"] + mods, cwd=LEAN)
         res["leanchecker"] = "ok" if rc == 0 else "failed"
         if rc != 0:
             res["log"] += "\nleanchecker failed:\n" + out[-3000:]
